@@ -73,7 +73,8 @@ func obNilGuard(c *rules.Ctx, id string) {
 
 func init() {
 	Registry["C18"] = &Spec{
-		Explanation: "",
+		Explanation: "Decides structural necessary conditions of 'editor analysis survives any text': (1) a nil-guard dataflow over the checker, hover, go-to-definition, symbols and the LSP query handlers: every dereference (interface method call, field access through a pointer, pointer load, hand-off to a function that dereferences its parameter) of an AST value that can be absent on a partial tree is dominated on every path by a nil test of that value (or a successful type assertion of it); parameters are handled by a requirement fixpoint over call sites; fields proved non-nil by their constructors or by the grammar, and the invariant that declarations enter the checker's maps only with a name, are verified as separate model obligations; (2) the may-panic inventory (see C12/C14) from CheckSource, CheckProgram, GetSymbols, HoverOn, GotoDefinition, every diagnostic Message/Severity and the LSP query handlers, including the parser underneath; (3) panicking defaults sit under exhaustive switches that also handle nil.",
+		NotDecided:  []string{"termination", "intermediate texts on which the ANTLR runtime itself misbehaves", "typed-nil pointers stored in interfaces by the conversion layer (no text produces them: ANTLR's recovery always builds the context or conjures the token)", "that diagnostics' ranges lie inside the document (runtime quantity; ranges are copies of parser ranges)", "analysing the same text twice gives the same set (follows from no shared state: see C11.1, not repeated here)"},
 		Assumptions: []string{A1, A3, A4},
 		Run: func(c *rules.Ctx) {
 			obNilGuard(c, "C18.1")
